@@ -1,5 +1,6 @@
 """C17 — form and query decoding returns the submitted fields."""
 from .servebase import *
+import vlib
 
 SPECIAL = "% &=+?#/:;@[]!$'()*,\""
 # the codes url-search-params decodes AFTER "%25" (its decode order is the defect): a literal '%' followed by one of them is re-decoded
@@ -16,7 +17,7 @@ def unsafe(s):
 
 class P(ServeProp):
     ID = "C17"
-    THEOREMS = ["C17_refuted", "C17_late_codes_fail", "C17_early_codes_ok", "C17_percent_is_eighth", "C17_tables_shape", "C17_roundtrip_partial", "C17_parse_query_spec", "C17_percent_free_round_trip", "C17_encoder_is_characterwise"]
+    THEOREMS = ["C17_refuted", "C17_late_codes_fail", "C17_early_codes_ok", "C17_percent_is_eighth", "C17_tables_shape", "C17_roundtrip_partial", "C17_parse_query_spec", "C17_percent_free_round_trip", "C17_encoder_is_characterwise", "C17_round_trip_outside_F1", "C17_F1_class", "C17_percent_free_outside_F1"]
     COQ_TARGETS = ["theories/Props/C17.vo", "theories/Extract.vo"]
     N_QUICK = 3000
     N_THOROUGH = 80000
@@ -79,6 +80,24 @@ class P(ServeProp):
 
     def encode(self, s):      # RFC 3986 percent-encoding of the characters the library's encoder handles (spec side, independent of the crate's order)
         return "".join(dict(self.ENC).get(c, c) for c in s)
+
+    def canon_model(self, line, out):
+        if out and " dom=" in out:
+            out = out.rsplit(" dom=", 1)[0]
+        return self.canon(line, out)
+
+    # the class C17-F1 as the generator tags it (Python) against the class of the theorem as the extracted model evaluates it (in_F1):
+    # the two must agree on every single-string case, otherwise the classifier and the theorem speak of different classes
+    def model_stats(self, cases, model):
+        import collections
+        c = collections.Counter()
+        for l, m in zip(cases, model):
+            if l.startswith("pct") and m and " dom=" in m:
+                inside = m.endswith("dom=1")
+                c["pct:" + ("in-theorem-domain (outside C17-F1)" if inside else "in C17-F1")] += 1
+                if inside == (meta(l).get("unsafe") == "1"):
+                    raise vlib.Infra("the generator's C17-F1 tag and the model's in_F1 disagree on " + l[:120])
+        return dict(c)
 
     def canon(self, line, out):
         k = strip_meta(line).split(" ")[0]
